@@ -1,5 +1,6 @@
 import HipVerif.Model.Conc
 import HipVerif.Gen.Atomics
+import HipVerif.Gen.Protocol
 import Std.Data.HashSet
 
 /-!
@@ -30,7 +31,8 @@ outcomes=<o> <o> …[ trace=<labels>]` where an outcome is
 and the trace is the first offending schedule found (`s<t>.<action>` start, `m<t>.<choice>`
 micro step, `x<t>><u>` send).
 
-Other commands: `proto` (prints the protocol description), `obligations` (prints the Bool
+Option `debug=1`: debug assertions compiled in (`Simple.debugLoad` steps are executed).
+Other commands: `protocol` (the functions of `Gen/Protocol` for miridrive's coverage check), `proto` (prints the protocol description), `obligations` (prints the Bool
 side conditions of the C04 theorems on the current description).
 -/
 
@@ -91,6 +93,8 @@ def parseProgs (s : String) : Option (List (List Act)) :=
 
 structure Opts where
   ceil : Nat := 1000000
+  /-- debug assertions compiled in (`debug=1`) -/
+  debug : Bool := false
   budget : Nat := 1000000
   hs : Option (List Nat) := none
   /-- initial references: (borrower, lender) -/
@@ -101,6 +105,7 @@ def parseOpts (s : String) : Option Opts :=
     match w.splitOn "=" with
     | ["ceil", v] => v.toNat?.map fun n => { o with ceil := n }
     | ["budget", v] => v.toNat?.map fun n => { o with budget := n }
+    | ["debug", v] => v.toNat?.map fun n => { o with debug := n != 0 }
     | ["h", v] => ((v.splitOn ",").mapM String.toNat?).map fun l => { o with hs := some l }
     | ["refs", v] =>
       ((v.splitOn ",").mapM fun (e : String) => match e.splitOn ">" with
@@ -184,11 +189,12 @@ def fmtOutcome (nprog : Nat) (s : State) : String :=
   "/".intercalate (per ++ [s!"freed={s.freed}", s!"pval={s.pval}"])
 
 /-- Live handles: those held by the threads plus those in flight (a `clone` whose increment
-has happened, a `drop` whose decrement has not); same definition as `total` in the proofs. -/
+has happened, a `drop` whose decrement has not: its remaining code still writes the counter);
+agrees with `total` of the proofs on every protocol of the verified shape. -/
 def liveHandles (s : State) : Nat :=
   (s.thr.map fun th => th.handles + match th.pc with
     | some ⟨.clone, code, _⟩ => if localRet code == some .done then 1 else 0
-    | some ⟨.drop, code, _⟩ => if (localRet code).isNone then 1 else 0
+    | some ⟨.drop, code, _⟩ => if code.any AStep.writes then 1 else 0
     | _ => 0).sum
 
 /-- `none` = fine, otherwise the kind of violation.  `count-overflow` is the executable face of
@@ -252,6 +258,13 @@ def runLine (line : String) : String :=
   if line == "" || line.startsWith "#" then "-" else
   if line == "proto" then toString (repr HipVerif.Gen.Atomics.proto).pretty.length ++ " " ++
       ((toString (repr HipVerif.Gen.Atomics.proto)).replace "\n" " ") else
+  if line == "protocol" then
+    -- the descriptor-juggling functions of Gen/Protocol (for the coverage cross-check of miridrive):
+    -- `name|tests_unique|assumes_unique|reads_or_writes|loc`, entries separated by ` ;; `
+    " ;; ".intercalate (HipVerif.Gen.Protocol.fns.map fun f =>
+      let evs := f.paths.flatten
+      let has := fun (e : HipVerif.ProtocolTy.Ev) => evs.any (· == e)
+      s!"{f.fn_}|{has .testUnique || has .take}|{f.assumesUnique}|{has .read || has .write}|{f.loc}") else
   if line == "obligations" then
     let sites := (HipVerif.Gen.Atomics.rowSites.map fun (m, locs) =>
       let code := match m with
@@ -270,7 +283,7 @@ def runLine (line : String) : String :=
     let hs := o.hs.getD (progs.map fun _ => 1)
     if hs.length ≠ progs.length then "error bad-h" else
     if hs.sum = 0 || hs.sum > o.ceil + 1 then "error bad-shares" else
-    let c : Cfg := { ceil := o.ceil, proto := HipVerif.Gen.Atomics.proto }
+    let c : Cfg := { ceil := o.ceil, proto := HipVerif.Gen.Atomics.proto, debug := o.debug }
     let nsend := (progs.map fun p => p.countP fun a => match a with | .send _ => true | _ => false).sum
     let s0 := o.refs.foldl (fun acc (p : Nat × Nat) => (step c acc (.borrow p.1 p.2)).getD acc)
       (init (hs ++ List.replicate nsend 0))
